@@ -4,6 +4,9 @@ import MgpuProofs.C01Tile
 import MgpuProofs.C01TTCode
 import MgpuProofs.C01TileGrid
 import MgpuProofs.C01TileInit
+import MgpuProofs.C01TileDesc
+import MgpuProofs.C01BarEx2
+import MgpuProofs.C01LdsFrame
 /-! # C01 — an LDS + barrier kernel class: the barrier rounds of `runWG`, and one tile of `matrixTranspose`
 
 Third deepening.  The shipped kernel is `matrixTranspose` of amd/benchmarks/amdappsdk/matrixtranspose/kernels.hsaco
@@ -150,6 +153,46 @@ theorem transpose_wave_init (D : Dispatch) (nb n : Nat) (hgeo : D.geo = TT.geoT 
       (initWave D (TT.wgT nb n) ⟨64 * k, TT.fullMask, 64⟩).completed = false :=
   ⟨TT.wavesOf_geoT D nb n hgeo, fun k lane hk hl => TT.initWave_ids D nb hgeo hv5 hwi _ k lane hk hl⟩
 
+/-- **transposeGrid_from_wave_phases** (the same grid statement with the hypothesis cut down to what a
+    per-wavefront symbolic execution delivers).  The four wavefronts of a work-group are recognised by their lane-0
+    local id (`TT.waveIdx`), so the write-list functions of `TT.WGDesc` exist canonically; what remains is, for every
+    work-group `n < nb²` and wavefront `k < 4` (`TT.waveT D nb n k` = what `initWfs` builds, `transpose_wave_init`):
+    `Phase1 … (lwWave tile f0 k)` to the barrier and `Phase2 … (wrWave tile L k)` from it. -/
+theorem transposeGrid_from_wave_phases (P : Program) (D : Dispatch) (nb : Nat) (hnb : 0 < nb) (hgeo : D.geo = TT.geoT nb)
+    (hv5 : D.v5 = false) (hwi : D.vgprWI = 1) (inp out r : Nat) (f0 : Nat → Nat) (Ok : Mem → Prop)
+    (Q : Nat → Nat → Wave → Prop)
+    (h1 : ∀ n k, n < nb * nb → k < 4 →
+      Phase1 P D.kernelObject (r + 2) Ok (TT.waveT D nb n k) (TT.lwWave (TT.gridTile inp out nb n) f0 k) (Q n k))
+    (h2 : ∀ n k, n < nb * nb → k < 4 → ∀ w1, Q n k w1 → w1.completed = false →
+      Phase2 P D.kernelObject (r + 2) Ok (applyWrites (TT.lwAll (TT.gridTile inp out nb n) f0) (fun _ => 0))
+        { w1 with atBarrier := false }
+        (TT.wrWave (TT.gridTile inp out nb n) (applyWrites (TT.lwAll (TT.gridTile inp out nb n) f0) (fun _ => 0)) k))
+    (m : Mem) (hok : Ok (install D.packetAddr D.packet (install D.kernargAddr D.kernarg m))) :
+    ∃ m', runE P D (r + 2) m = .ok m' ∧ Ok m' ∧
+      (∀ Rg Cg b, Rg < 64 * nb → Cg < 64 * nb → b < 4 →
+        get m' (out + 4 * (64 * nb * Rg + Cg) + b) = f0 (inp + 4 * (64 * nb * Cg + Rg) + b)) ∧
+      (∀ a, (a < out ∨ out + 4 * (64 * nb * (64 * nb)) ≤ a) →
+        get m' a = get (install D.packetAddr D.packet (install D.kernargAddr D.kernarg m)) a) :=
+  TT.runE_transpose_of_phases P D nb hnb hgeo hv5 hwi inp out r f0 Ok Q h1 h2 m hok
+
+/-! ## LDS in the symbolic-execution view -/
+
+/-- **only_ds_touches_lds.** The frame fact that makes every existing per-class step lemma (`C01Insts`: they describe
+    the state after a step through `View`, which has no LDS component) usable in LDS-aware symbolic execution: a step
+    of the emulator on a decoded instruction whose encoding is not DS (bits 31..26 ≠ 0x36) — scalar ALU, SMEM, FLAT,
+    EVERY VALU form of the C03V specification, `S_BARRIER`, `S_ENDPGM` — leaves the LDS association list as it was. -/
+theorem only_ds_touches_lds (P : Program) (hP : P.cdna3 = false) (base k : Nat) (st st' : St) (c : Ctl)
+    (hpc : st.pc = base + k) (ft op sz : Nat) (hd : DecV ((P.code.drop k).take 8) ft op sz)
+    (hnd : field (leWord (((P.code.drop k).take 8).take sz) 0) 26 31 ≠ 0x36)
+    (h : step P base st = .ok (st', c)) : st'.lds = st.lds :=
+  step_lds_frame P hP base k st st' c hpc ft op sz hd hnd h
+
+/-- **ds_writes_no_global_memory.** Conversely a DS instruction (any of the 22 the C03V specification knows) writes
+    VGPR and LDS cells only: committing its write list leaves the global-memory list untouched. -/
+theorem ds_writes_no_global_memory (st : St) (w0 w1 : Nat) (name : String) (ws : List Wr)
+    (h : execDS st w0 w1 = some (name, ws)) : (applyWrs st ws).mem = st.mem :=
+  mem_applyWrs_noMem st ws (execDS_noMem st w0 w1 name ws h)
+
 /-! ## the shipped code bytes -/
 
 /-- **transposeKernel_lds_insts.** The memory / LDS / barrier skeleton of the shipped code bytes, by evaluating the
@@ -231,6 +274,34 @@ def ttDispatch : Dispatch :=
 example : (wavesOf ttDispatch (TT.wgT 1 0)).length = 4 := by
   rw [(transpose_wave_init ttDispatch 1 0 rfl rfl rfl).1]
   rfl
+
+/-- `runWG_one_barrier` with REAL LDS writes, at instruction level: the shipped kernel's first LDS write
+    (`ds_write2_b64 v12, v[2:3], v[4:5] offset1:1`, bytes 436..443 of `transposeKernelCode`), `s_barrier`, `s_endpgm`.
+    ANY two wavefronts at its entry have `Phase1` descriptions with the write lists `ldsPairs16` (16 bytes per active
+    lane at LDS address v12, obtained through `step`, the C03V meaning `ttx436` and `step_barrier`) -/
+example (base fuel rounds : Nat) (wa wb : Wave) (ha : wa.completed = false) (hb : wb.completed = false)
+    (hpa : wa.st.pc = base) (hpb : wb.st.pc = base) (m l : Mem) :
+    ∃ m', runWG BarEx2.ldsProg base (fuel + 2) (rounds + 2) [wa, wb] m l = .ok m' ∧ get m' = get m := by
+  obtain ⟨m', hr, hg, _⟩ := runWG_one_barrier BarEx2.ldsProg base (fuel + 2) rounds (fun _ => True) (get l)
+    (fun w => ldsPairs16 w.st 12 2 4) (fun _ => []) (BarEx2.Mid base) [wa, wb] (by simp)
+    (by
+      intro w hw
+      simp only [List.mem_cons, List.mem_nil_iff, or_false] at hw
+      rcases hw with rfl | rfl
+      · exact BarEx2.phase1 base fuel _ ha hpa
+      · exact BarEx2.phase1 base fuel _ hb hpb)
+    (fun w _ w1 hq hc => BarEx2.phase2 base fuel _ w w1 hq hc) m l trivial rfl
+  exact ⟨m', hr, by rw [hg]; rfl⟩
+
+/-- `only_ds_touches_lds` on the shipped bytes: `v_mov_b32 v20, 0` at byte 36 decodes, is not DS, and the emulator
+    does step over it (C03V knows it), so the hypotheses are met -/
+example : DecV (ttWin 36) 7 1 4 ∧ field (leWord ((ttWin 36).take 4) 0) 26 31 ≠ 0x36 ∧
+    ∀ st : St, ∃ name ws, exec false st ((ttWin 36).take 4) = some (name, ws) :=
+  ⟨DecV_of_ok (by decide +kernel), by decide +kernel,
+   fun st => by
+     have e : (ttWin 36).take 4 = [0x80, 0x02, 0x28, 0x7e] := by decide +kernel
+     rw [e]
+     exact ⟨_, _, rfl⟩⟩
 
 end Emu
 end C01
